@@ -11,6 +11,12 @@
 // entries are opened, exited and probed from the main goroutine in between; "rec" lets the parked
 // caller finish and records what api.Entry returned.  The schedules come from TLC (HotParamConc with
 // K >= 1: Check / Record / Exit as separate actions).
+// First use of a value (op burst): G goroutines, released by a spin barrier under real parallelism (no gate:
+// there is no yield point inside the parameter cache), issue one request each for the same value at the
+// same instant - normally a value the rule has never seen, so they race for the on-demand creation of its
+// counter (HotParamConc with Fresh: Lookup / Create / Record).  Their outcomes are recorded; the entries are
+// either held (they become live entries of the trace, exited later by exit / exitall from the main
+// goroutine) or exited by their own goroutine right away.  The probes that follow judge the quiescent state.
 // The recorded trace is validated against spec/HotParamConc_Trace.tla.
 //
 // usage: c06 <scenarios.ndjson> <trace.ndjson>
@@ -306,6 +312,9 @@ func main() {
 				got[i].Exit()
 			}
 			tr.Emit(hx.M{"op": "probe", "res": s["res"], "args": args, "atts": atts, "n": len(got), "tv": tv, "live": r.liveObs()})
+		case "burst":
+			out := r.burst(s)
+			tr.Emit(hx.M{"op": "burst", "res": s["res"], "args": args, "atts": atts, "hold": hx.Int(s, "hold") != 0, "out": out, "live": r.liveObs()})
 		case "stress":
 			aliased := r.stress(s)
 			tr.Emit(hx.M{"op": "stress", "aliased": aliased, "used": s["used"]})
@@ -316,6 +325,74 @@ func main() {
 	if r != nil {
 		r.close()
 	}
+}
+
+// burst: len(ids) goroutines issue one request each for the same (resource, arguments) at the same instant.
+// hold != 0: the admitted entries stay live under their ids; else every goroutine exits its own entry
+// (after `lag` scheduler yields).  Everything has returned when burst returns.
+func (r *run) burst(s hx.M) []hx.M {
+	idl, _ := s["ids"].([]interface{})
+	g := len(idl)
+	hold, lag := hx.Int(s, "hold") != 0, int(hx.Int(s, "lag"))
+	res := r.res(hx.Str(s, "res"))
+	// the value table is not safe for concurrent use: every goroutine gets its options built here
+	os_ := make([][]api.EntryOption, g)
+	for i := range os_ {
+		os_[i] = opts(r.tab, s)
+	}
+	type outcome struct {
+		e *base.SentinelEntry
+		b *base.BlockError
+		p bool
+	}
+	res_ := make([]outcome, g)
+	procs := g
+	if procs < 8 {
+		procs = 8
+	}
+	prev := runtime.GOMAXPROCS(procs)
+	defer runtime.GOMAXPROCS(prev)
+	var arrived int32
+	var wg sync.WaitGroup
+	wg.Add(g)
+	for i := 0; i < g; i++ {
+		go func(i int) {
+			defer wg.Done()
+			// spin barrier: every caller is running on a processor of its own when the round starts (busy waiting, so
+			// that one processor cannot take all callers through the barrier one after the other; the scheduler is
+			// asked for help only after a long wait, e.g. on a machine with fewer free CPUs than callers)
+			atomic.AddInt32(&arrived, 1)
+			for k := 1; atomic.LoadInt32(&arrived) < int32(g); k++ {
+				if k&(1<<18-1) == 0 {
+					runtime.Gosched()
+				}
+			}
+			o := &res_[i]
+			o.e, o.b, o.p = entry(res, os_[i])
+			if !hold && o.e != nil && o.b == nil {
+				for k := 0; k < lag; k++ {
+					runtime.Gosched()
+				}
+				o.e.Exit()
+			}
+		}(i)
+	}
+	wg.Wait()
+	out := make([]hx.M, 0, g)
+	for i := 0; i < g; i++ {
+		id := int64(idl[i].(float64))
+		o := res_[i]
+		m := hx.M{"id": id, "ok": o.e != nil && o.b == nil, "tv": 0}
+		if o.p {
+			m["panic"], m["ok"] = true, false
+		} else if o.b != nil {
+			m["tv"] = tvOf(o.b)
+		} else if hold {
+			r.live[id] = o.e
+		}
+		out = append(out, m)
+	}
+	return out
 }
 
 // stress: G goroutines open / nest / exit entries concurrently (real parallelism, no gate) and all
